@@ -114,7 +114,9 @@ impl BuildOptimiser {
         // The temperature is reduced once for every inner loop, not once for every step.
         let loops = u64::max(1, self.steps / inner_steps);
         let kt_ratio = match (self.kt_ratio, self.kt_finish) {
-            (Some(ratio), _) => 1. - ratio,
+            // A ratio above one cools straight to zero rather than to a negative temperature,
+            // which would accept every move (and turns a zero temperature into negative zero).
+            (Some(ratio), _) => f64::max(0., 1. - ratio),
             // A temperature of zero stays at zero, no ratio takes it to kt_finish.
             (None, Some(_)) if self.kt_start == 0. => 1.,
             (None, Some(finish)) => f64::powf(finish / self.kt_start, 1. / loops as f64),
